@@ -361,6 +361,25 @@ fn builtin_key(c: &Case, how: &str) -> String {
     format!("{verb} {} {}", c.name, c.class)
 }
 
+/// `Driver::ask_all` writes a chunk of requests before it reads the answers: the
+/// requests of one chunk must fit the pipe (long list arguments), or both sides
+/// block.  Batches of at most 16 KB of request text.
+fn ask_sized(drv: &mut Driver, reqs: &[String]) -> Vec<String> {
+    let mut out = Vec::with_capacity(reqs.len());
+    let mut from = 0;
+    while from < reqs.len() {
+        let mut to = from;
+        let mut bytes = 0usize;
+        while to < reqs.len() && (to == from || bytes + reqs[to].len() + 1 <= 16 * 1024) && to - from < 256 {
+            bytes += reqs[to].len() + 1;
+            to += 1;
+        }
+        out.extend(drv.ask_all(&reqs[from..to]));
+        from = to;
+    }
+    out
+}
+
 fn builtin_part(rep: &mut Report, viol: &mut Viol, drv: &mut Driver, seed: u64, thorough: bool, workdir: &std::path::Path) {
     let cases = builtins::cases(seed, thorough);
     // coverage: every registered built-in is exercised by at least one case
@@ -381,7 +400,7 @@ fn builtin_part(rep: &mut Report, viol: &mut Viol, drv: &mut Driver, seed: u64, 
     // model predictions
     let with_model: Vec<usize> = (0..cases.len()).filter(|i| cases[*i].lean.is_some()).collect();
     let reqs: Vec<String> = with_model.iter().map(|i| cases[*i].lean.clone().unwrap()).collect();
-    let answers = drv.ask_all(&reqs);
+    let answers = ask_sized(drv, &reqs);
     let mut pred: Vec<Option<String>> = vec![None; cases.len()];
     for (i, a) in with_model.iter().zip(answers) {
         if a == "bad-op" {
